@@ -52,6 +52,8 @@ def run(ctx):
     RT.counters(ctx, "R05.b", check_len_inc=False)
     RS.reset_before_read(ctx, "R05.b", only_owner="store::trigram_index::TrigramIndex", floor=1)
     RR.hit_filter(ctx, "R05.c")
+    # candidate positions of a non-empty query come from the index only (no path that scores records the index did not name)
+    RR.position_mapping(ctx, "R05.b")
     # "a query that contains a letter or digit" has at least one word: strip/split classes are what their names say
     RK.class_predicates(ctx, "R05.d")
     RK.sibling_agreement(ctx, "R05.d", "R05.d", stages_too=False, only=("query",))
